@@ -515,6 +515,8 @@ def run_shape(args):
         shape = mod.shapes(tier)[index]
         out["shape"] = shape.name
         formula.STATS.update({"queries": 0, "solver_s": 0.0, "sat": 0, "unsat": 0, "unknown": 0})
+        formula.XCHECK.update({"done": 0, "agree": 0, "other_unknown": 0, "disagree": []})
+        xcheck_tier = tier == "thorough" and os.environ.get("VERIF_XCHECK", "1") != "0"
         _PROFILE.clear()
         ex, paths = build_symbolic(shape, profile=True)
         out["functions"] = sorted(_PROFILE)
@@ -549,7 +551,13 @@ def run_shape(args):
             for ob in obs:
                 ctx = path.out
                 try:
-                    res = decide(ob, ctx, path)
+                    # thorough tier: the quantifier-free soundness queries of the symbolic phase are re-decided
+                    # by a second z3 generation (SMT-LIB dump -> z3 5.1.0)
+                    formula.XCHECK["on"] = xcheck_tier and ob.kind == "sound"
+                    try:
+                        res = decide(ob, ctx, path)
+                    finally:
+                        formula.XCHECK["on"] = False
                 except Exception as e:
                     res = {"id": ob.id, "kind": ob.kind, "status": "error", "path": path.tag(),
                            "note": traceback.format_exc()[-800:]}
@@ -560,6 +568,10 @@ def run_shape(args):
                 limit = getattr(shape, "grid_limit", None) or (6 if tier == "quick" else 24)
                 grid_phase(shape, path, prop, module, limit, int(os.environ.get("VERIF_SEED", "0") or 0), out, replayed)
         out["stats"] = dict(formula.STATS)
+        out["xcheck"] = {k: (v if k != "disagree" else list(v)[:5]) for k, v in formula.XCHECK.items() if k not in ("on", "bin")}
+        for d in formula.XCHECK["disagree"][:3]:
+            out["results"].append({"id": f"{prop}/{shape.name}/second_solver_agrees", "kind": "xcheck", "status": "error",
+                                   "note": f"z3 4.12.6 says {d[0]}, z3 5.1.0 says {d[1]} on {d[2][:200]}"})
     except Exception:
         out["error"] = traceback.format_exc()[-1500:]
     out["wall_s"] = round(time.perf_counter() - t0, 3)
@@ -667,6 +679,11 @@ def run_property(prop, module, tier, level, assumptions, trusted=None, extra_cov
         "obligations": n_ob,
         "verdicts": counts,
         "solver_queries": queries,
+        "second_solver": {"queries": sum(o.get("xcheck", {}).get("done", 0) for o in outs),
+                          "agree": sum(o.get("xcheck", {}).get("agree", 0) for o in outs),
+                          "second_solver_unknown": sum(o.get("xcheck", {}).get("other_unknown", 0) for o in outs),
+                          "disagreements": sum(len(o.get("xcheck", {}).get("disagree", [])) for o in outs),
+                          "what": "thorough tier: SMT-LIB dump of the symbolic-phase soundness queries re-decided by the z3 5.1.0 binary"},
         "solver_time_s": round(solver_s, 3),
         "functions_executed_symbolically": sorted(functions),
         "known_findings_hit": sorted(known_hits),
